@@ -106,6 +106,8 @@ def check(ctx):
     ctx.attempt(_grow)
     ctx.attempt(_whitespace_normal_form)
     ctx.attempt(_whitespace_before_everything)
+    from .c02 import pass_back_makes_progress       # a pass that undoes itself never reaches the fixed point
+    ctx.attempt(pass_back_makes_progress)
     ctx.attempt(_fixpoint)
     ctx.attempt(_progress)
     ctx.attempt(_bounded_expansion)
